@@ -24,7 +24,7 @@ func init() {
 	model.Schemas["req"] = `module req { namespace "urn:req"; prefix r; revision 0;
   leaf top { type string; }
   container c { leaf a { type string; } leaf n { type int32 { range "min..10"; } } container d { leaf x { type string; } }
-    leaf-list ll { type string; } leaf e { type enumeration { enum one; enum two; } } leaf b { type boolean; }
+    leaf-list ll { type string; } leaf-list le { type enumeration { enum one; enum two; } } leaf-list li { type int8; } leaf-list lb { type bits { bit x; } } leaf e { type enumeration { enum one; enum two; } } leaf b { type boolean; }
     leaf u { type union { type int32; type string; } } leaf em { type empty; } leaf bits { type bits { bit x; bit y; } }
     leaf lr { type leafref { path "../a"; } } leaf dec { type decimal64 { fraction-digits 2; } } leaf u64 { type uint64; }
     leaf nk { type int32 { range "1..5 | max"; } } leaf sk { type string { length "min | 4..8"; } } leaf dk { type decimal64 { fraction-digits 2; range "min | 0..1"; } } leaf uk { type uint8 { range "max"; } } anydata any; action cact { input { leaf i { type string; } } } notification cev { leaf x { type string; } } }
@@ -64,12 +64,12 @@ var c13JSONKinds = []string{`null`, `true`, `0`, `-1`, `1.5`, `1e99`, `"s"`, `""
 
 // positions: path of member names into the valid document (list entries by index)
 // (x1 and y1 are members of two cases of one choice: never both in one document)
-var c13Positions = []string{"top", "c", "c/a", "c/n", "c/d", "c/d/x", "c/ll", "c/e", "c/b", "c/u", "c/em", "c/bits", "c/lr", "c/dec", "c/u64", "c/nk", "c/sk", "c/dk", "c/uk", "l", "l/0", "l/0/k", "l/0/m", "l/0/n", "l/0/n/0", "l/0/n/0/b", "i", "i/0/k", "x1", "y1", "zz", "c/zz", "l/0/zz", "zz:top", "req:top", "act", "ev"}
+var c13Positions = []string{"top", "c", "c/a", "c/n", "c/d", "c/d/x", "c/ll", "c/le", "c/li", "c/lb", "c/e", "c/b", "c/u", "c/em", "c/bits", "c/lr", "c/dec", "c/u64", "c/nk", "c/sk", "c/dk", "c/uk", "l", "l/0", "l/0/k", "l/0/m", "l/0/n", "l/0/n/0", "l/0/n/0/b", "i", "i/0/k", "x1", "y1", "zz", "c/zz", "l/0/zz", "zz:top", "req:top", "act", "ev"}
 
 var c13Segs = []string{"c", "d", "a", "zz", "l", "l=a", "l=zz", "l=a,b", "l=", "i=1", "i=x", "i=1.5", "i=99999999999", "c=a", "top", "top=a", "act", "ev", "..", ".", "", "%zz", "%2F", "req:c", "zz:c", ":", "=", ",", "l==a", "n=p,1", "n=p", "n=p,x", "m", "x1", "y1", "ch", "x", "?", "?depth=1", "?depth=x", "#", "ll", "ll=p", "e", "act/input", "lr"}
 
 var c13QNames = []string{"depth", "content", "fields", "fc.xfields", "with-defaults", "fc.range", "fc.max-node-count", "where", "filter", "zz"}
-var c13QVals = []string{"", "1", "-1", "99999999999999999999", "a", "a/", "/", "(", ")", ";", "!", "!-", "l!1-", "l!x-y", "l!1-2", "((", "a(b", "a;b)", "c/d", "c(a;d/x)", "l/n", "zz", "%zz", "a=1", "k='a'", "k=", "='a'", "config", "trim"}
+var c13QVals = []string{"", "1", "-1", "99999999999999999999", "a", "a/", "/", "(", ")", ";", "!", "!-", "l!1-", "l!x-y", "l!1-2", "l!-1", "l!-1-2", "l!-4-", "i!-1", "l!1--2", "l!-", "l!99999999999999999999", "((", "a(b", "a;b)", "c/d", "c(a;d/x)", "l/n", "zz", "%zz", "a=1", "k='a'", "k=", "='a'", "config", "trim"}
 
 var c13XTokens = []string{"a", "k", "v", "tags", "any", "cact", "cev", "zz", "c", "d", "l", "/", ":", "=", "!=", "<", "<=", ">", ">=", "10", "-10", "1.5", "'lit'", "'", "(", ")", "[", "]", "*", ".", "..", " "}
 
